@@ -345,9 +345,9 @@ def compare(obs, model, tol, t, site, clause, discr, opi, what):
         tt = np.array(sorted(set(t.tolist()) | set(obs.xs()))) if len(t) or obs.xs() else t
         for k in range(max(obs.depth(), model.depth())):
             a, b = obs.eval(k, tt), model.eval(k, tt)
-            bad = np.abs(a - b) > tol
+            bad = ~(np.abs(a - b) <= tol)            # NaN-safe: a non-finite value is never "within tolerance"
             if bad.any():
-                i = int(np.argmax(np.abs(a - b)))
+                i = int(np.argmax(bad))
                 raise Violation(clause, site, discr, "%s: depth %d at t=%r is %r, pointwise definition gives %r"
                                 % (what, k, float(tt[i]), float(a[i]), float(b[i])), opi)
     else:
@@ -357,8 +357,8 @@ def compare(obs, model, tol, t, site, clause, discr, opi, what):
         a, b = pad(obs.values, n), pad(model.values, n)
         if a.shape != b.shape:
             raise Violation(clause, site, discr + "/shape", "%s has values of shape %r, expected %r" % (what, a.shape, b.shape), opi)
-        if a.size and np.abs(a - b).max() > tol:
-            k, i = np.unravel_index(int(np.argmax(np.abs(a - b))), a.shape)
+        if a.size and not np.all(np.abs(a - b) <= tol):       # NaN-safe
+            k, i = np.unravel_index(int(np.argmax(~(np.abs(a - b) <= tol))), a.shape)
             raise Violation(clause, site, discr, "%s: depth %d at grid node %d is %r, pointwise definition gives %r"
                             % (what, k, i, float(a[k, i]), float(b[k, i])), opi)
 
